@@ -716,6 +716,247 @@ def run_switches(c):
 
 
 # ---------------------------------------------------------------------------------------------------
+# (E) BEGIN network leg: whole pipelines replayed through the network-of-accounts model (driver mode `net`, Net/Network.lean)
+
+ASSUMPTIONS.append('network leg: every pipeline of (C) is run once more (same seed) and, in addition, topologies with a Splitter / NSplitter (fan-out by copy) and '
+                   'with two source chains joining in a common element (fan-in) are built from the same elements; the records of the taps (put / out.put / counted '
+                   'drop of every element, in the order they were made) are grouped into global steps - inject, forward+accept|refuse|deliver, drop, copy - and '
+                   'replayed through `Net.step`: every step must be a legal global step and the receiver the one the wiring function names; dispatchers are not '
+                   'tapped: their accept is the upstream out.put, their forward the downstream put, a copy is booked when the splitter takes the packet (copy() '
+                   'has no tap); a wire loss has no tap either and is booked at the end for packets a lossy wire took and never forwarded. The final place of '
+                   'every packet object according to the model is compared with the harness\'s own account (last tap record of the object, PacketSink totals)')
+
+
+def net_leg(ctx, pipe_cases):
+    """-> (disagreements, coverage dict).  One delimited function: builds the topologies, exports the global event lists, replays, compares."""
+    from onl.netdev.splitter import Splitter, NSplitter
+    rng = random.Random(f'C08-net-{ctx.seed}')
+    NOWHERE = 9999
+
+    class Topo:
+        """node numbering and wiring of one built pipeline: kind[i] in elem|demux|split, out[i] = dest | {flow: dest} | [dest, ...]; dest = ('n', j) | ('s', k)"""
+        def __init__(self): self.names, self.kind, self.out, self.lossy = [], [], [], set()
+        def add(self, name, kind):
+            self.names.append(name); self.kind.append(kind); self.out.append(None); return len(self.names) - 1
+        def lines(self):
+            L = []
+            for i, (k, o) in enumerate(zip(self.kind, self.out)):
+                d = lambda x: f'{x[0]} {x[1]}'
+                if k == 'elem': L.append(f'nx {i} all {d(o)}')
+                elif k == 'demux': L += [f'nx {i} flow {fl} {d(x)}' for fl, x in sorted(o.items())]
+                else:                                   # two outputs: the original to the first, the copy to the second
+                    L += [f'spl {i}', f'nx {i} orig {d(o[0])}', f'nx {i} copy {d(o[1])}']
+            return L
+
+    def from_pipe(c):
+        pr = Pipe(c).run()
+        t = Topo()
+        for (n, k, e) in pr.elems:
+            i = t.add(n, 'elem')
+            if k == 'wire' and e.loss_rate: t.lossy.add(i)
+        nch = len(c['chain'])
+        if c['fan']:
+            D = t.add('demux', 'demux')
+            t.out[D] = {fl: ('n', nch + j) for j, fl in enumerate(FLOWS)}
+            for j in range(len(FLOWS)): t.out[nch + j] = ('s', 1)
+        for i in range(nch):
+            t.out[i] = ('n', i + 1) if i + 1 < nch else (('n', D) if c['fan'] else ('s', 1))
+        return pr, t, {1: pr.sink}
+
+    def build_extra(c):
+        """split: A -> Splitter/NSplitter -> branches -> sinks; join: chains A and B (a source each) -> common chain C -> sink"""
+        r = random.Random(c['seed'])
+        pr = Pipe.__new__(Pipe)
+        pr.c, pr.env, pr.log, pr.held, pr.badrule, pr.nrule, pr.elems, pr.raised = c, Environment(), [], {}, [], 0, [], None
+        env, t = pr.env, Topo()
+        sinks = {1: PacketSink(env), 2: PacketSink(env)}
+        def chain(kinds, tag, final_dev, final_dest):
+            """build a chain ending in final_dev; -> (first device, first index) (or (final_dev, final_dest) for an empty chain)"""
+            idxs = []
+            for j, k in enumerate(kinds):
+                e = make_elem(env, k, r); n = f'{tag}{j}{k}'; pr.elems.append((n, k, e)); i = t.add(n, 'elem'); idxs.append((i, n, e))
+                if k == 'wire' and e.loss_rate: t.lossy.add(i)
+            nxt, nd = final_dev, final_dest
+            for (i, n, e) in reversed(idxs):
+                e.out = Tap(pr, n, nxt); t.out[i] = nd
+                nxt, nd = e, ('n', i)
+            for (i, n, e) in idxs: pr._tap_put(n, e)
+            return nxt, nd
+        if c['shape'] == 'join':
+            cdev, cd = chain(c['C'], 'c', sinks[1], ('s', 1))
+            heads = [chain(c['A'], 'a', cdev, cd)[0], chain(c['B'], 'b', cdev, cd)[0]]
+        else:
+            outs = []
+            for j, kinds in enumerate(c['branches']):
+                k = 1 if c['same_sink'] else 1 + (j % 2)
+                outs.append(chain(kinds, f'br{j}', sinks[k], ('s', k)))
+            sp = Splitter() if len(outs) == 2 and c['two'] else NSplitter(len(outs))
+            if isinstance(sp, Splitter): sp.out1, sp.out2 = outs[0][0], outs[1][0]
+            else:
+                for j, o in enumerate(outs): sp.outs[j] = o[0]
+            S = t.add('splitter', 'split'); t.out[S] = [o[1] for o in outs]
+            heads = [chain(c['A'], 'a', sp, ('n', S))[0]]
+        r2 = random.Random(c['seed'] + 2)
+        pr.sent = []
+        def src(k, head):
+            pid = 1000 * k
+            for _ in range(c['npk']):
+                yield env.timeout(r2.choice([0, 0, 0.5, 1, 2, 0.125]))
+                for _ in range(r2.choice([1, 1, 2, 3])):
+                    pid += 1
+                    p = Packet(env.now, r2.choice([40, 100, 500, 1500]), pid, src=f's{k}', flow_id=r2.choice(FLOWS), payload=('pl', pid))
+                    pr.sent.append(p); head.put(p)
+        for k in range(c['nsrc']):
+            env.process(src(k + 1, heads[k % len(heads)]))
+        old = wire_mod.random
+        wire_mod.random = LossDraws(random.Random(c['seed'] + 1))
+        try:
+            with quiet():
+                env.run(until=1e7)
+        except BaseException as x:
+            pr.raised = f'{type(x).__name__}: {x}'
+        finally:
+            wire_mod.random = old
+        return pr, t, sinks
+
+    def export(cid, pr, t):
+        """tap records -> (driver text lines, own account {(id, copy): place string}, number of events)"""
+        log, idx = pr.log, {n: i for i, n in enumerate(t.names)}
+        key, ncopy, ev = {}, collections.Counter(), []
+        pos = [0]
+        def K(p): return '%d %d' % key[id(p)]
+        def handed(src, p, dest):
+            """packet object p leaves node src towards dest: what did the taps see happen to it?"""
+            if dest[0] == 's':
+                ev.append(f'fwd {src} {K(p)} dlv {dest[1]}'); return
+            j = dest[1]
+            if t.kind[j] == 'elem':
+                seen(src, p)
+                return
+            ev.append(f'fwd {src} {K(p)} acc {j}')
+            if t.kind[j] == 'demux':
+                i = pos[0]
+                if i < len(log) and log[i][1] == 'in' and log[i][3] is p: seen(j, p)
+                else: ev.append(f'drop {j} {K(p)} 3')            # no route: discarded by rule
+            else:
+                outs = t.out[j]
+                pid = key[id(p)][0]
+                nums = []
+                for _ in outs[1:]:
+                    ncopy[pid] += 1; nums.append(ncopy[pid]); ev.append(f'copy {j} {K(p)} {ncopy[pid]}')
+                handed(j, p, outs[0])
+                for k, d in zip(nums, outs[1:]):
+                    i = pos[0]
+                    if i < len(log) and log[i][1] == 'in' and id(log[i][3]) not in key and log[i][3].packet_id == pid:
+                        q = log[i][3]; key[id(q)] = (pid, k); handed(j, q, d)
+        def seen(src, p):
+            """the next tap record must be the put of p at some element: accepted or refused there"""
+            i = pos[0]
+            if i < len(log) and log[i][1] == 'in' and log[i][3] is p:
+                b = idx[log[i][0]]; pos[0] += 1
+                if pos[0] < len(log) and log[pos[0]][1] == 'drop' and log[pos[0]][3] is p and idx[log[pos[0]][0]] == b:
+                    pos[0] += 1; ev.append(f'fwd {src} {K(p)} ref {b} 1')
+                else:
+                    ev.append(f'fwd {src} {K(p)} acc {b}')
+            else:
+                ev.append(f'fwd {src} {K(p)} dlv {NOWHERE}')       # handed to nobody the taps could see
+        while pos[0] < len(log):
+            rec = log[pos[0]]; pos[0] += 1
+            name, what, _, p = rec[:4]
+            a = idx[name]
+            if what == 'in':                                           # not part of a hand-over: a source's put
+                if id(p) not in key: key[id(p)] = (p.packet_id, 0)
+                sn = rec[4]
+                fields = f'{sn[0]} {sn[1]} {int(str(sn[2])[1:])} {sn[3]} {bits(sn[4])} {sn[5][1]}'
+                if pos[0] < len(log) and log[pos[0]][1] == 'drop' and log[pos[0]][3] is p and log[pos[0]][0] == name:
+                    pos[0] += 1; ev.append(f'inj {a} {fields} ref 1')
+                else:
+                    ev.append(f'inj {a} {fields} acc')
+            elif what == 'drop':
+                if id(p) in key: ev.append(f'drop {a} {K(p)} 1')
+            else:
+                if id(p) not in key: key[id(p)] = (p.packet_id, 0); ev.append(f'fwd {a} {K(p)} acc {a}'); continue   # forwarded but never handed in: refused by the model
+                o = t.out[a]
+                handed(a, p, o)
+        # own account: the last tap record of every packet object
+        last, objs = {}, {}
+        for rec in log:
+            last[id(rec[3])] = rec; objs[id(rec[3])] = rec[3]
+        own = {}
+        for oid, rec in last.items():
+            if oid not in key: continue
+            a, what, p = idx[rec[0]], rec[1], rec[3]
+            if what == 'drop': place = f'dropped {a} 1'
+            elif what == 'in':
+                if a in t.lossy:
+                    place = f'dropped {a} 2'; ev.append(f'drop {a} {K(p)} 2')      # wire loss (no tap): booked at the end
+                else: place = f'held {a}'
+            else:
+                d = t.out[a]
+                if d[0] == 's': place = f'sink {d[1]}'
+                elif t.kind[d[1]] == 'demux': place = f'dropped {d[1]} 3'
+                else: place = f'sink {NOWHERE}'
+            own[key[oid]] = place
+        text = [f'CASE {cid} net {len(t.names)}'] + t.lines() + ev + ['END']
+        return text, own, len(ev)
+
+    def extra_case(i):
+        shape = rng.choice(['split', 'split', 'join'])
+        mk = lambda lo, hi: [rng.choice(KINDS) for _ in range(rng.randint(lo, hi))]
+        c = {'cid': f'nt{i}', 'kind': 'net', 'shape': shape, 'seed': rng.randrange(1 << 30), 'nsrc': rng.randint(1, 3), 'npk': rng.randint(1, 8)}
+        if shape == 'join': c.update(A=mk(1, 2), B=mk(1, 2), C=mk(1, 2), nsrc=rng.randint(2, 3))
+        else: c.update(A=mk(1, 2), branches=[mk(1, 2) for _ in range(2)], two=rng.random() < 0.5, same_sink=rng.random() < 0.4)
+        return c
+
+    cases = [(c, from_pipe) for c in pipe_cases] + [(extra_case(i), build_extra) for i in range(max(1, len(pipe_cases) // 5))]
+    text, meta, dis = [], {}, []
+    cov = collections.Counter()
+    for c, build in cases:
+        pr, t, sinks = build(c)
+        if pr.raised:
+            cov['not replayed: the run raised (reported by the pipeline oracle)'] += 1
+            continue
+        cid = 'n' + c['cid']
+        lines, own, nev = export(cid, pr, t)
+        text += lines
+        meta[cid] = (c, own, pr, t, sinks)
+        cov['topologies'] += 1; cov['global steps'] += nev
+        cov['topologies with fan-out through a demux'] += 1 if c.get('fan') else 0
+        cov['topologies with a splitter'] += 1 if c.get('shape') == 'split' else 0
+        cov['topologies with fan-in at an element'] += 1 if c.get('shape') == 'join' else 0
+    model = split_cases(run_driver('net', '\n'.join(text) + '\n')) if text else {}
+    for cid, (c, own, pr, t, sinks) in meta.items():
+        out = model.get(cid) or []
+        rej = [l for l in out if l.startswith('REJECT')]
+        loc = {}
+        for l in out:
+            w = l.split()
+            if w and w[0] == 'loc': loc[(int(w[1]), int(w[2]))] = ' '.join(w[3:])
+        cov['steps refused by the model'] += len(rej)
+        cov['packet objects located'] += len(loc)
+        for k_, v in loc.items():
+            cov['place:' + v.split()[0]] += 1
+        bad = None
+        if not out or not out[0].startswith('verdicts'):
+            bad = f'no answer from the driver: {out[:2]}'
+        elif rej:
+            bad = f'{len(rej)} of the global steps the taps saw are not legal steps of the network model; first: {rej[0]}'
+        elif loc != own:
+            d = sorted(k_ for k_ in set(loc) | set(own) if loc.get(k_) != own.get(k_))[:3]
+            bad = 'final place of packet objects (id, copy): ' + '; '.join(f'{k_}: model {loc.get(k_)}, taps {own.get(k_)}' for k_ in d)
+        else:
+            for k_, sk in sinks.items():
+                n_model = sum(1 for v in loc.values() if v == f'sink {k_}')
+                if sum(sk.packets_received.values()) != n_model:
+                    bad = f'PacketSink {k_} reports {sum(sk.packets_received.values())} packets, the network model delivered {n_model} to it'
+        if bad:
+            dis.append({'case': c, 'detail': f'{cid} (nodes {t.names}): {bad}', 'impl': [f'{k_}: {v}' for k_, v in sorted(own.items())][:40],
+                        'model': out[:40]})
+    return dis, dict(sorted(cov.items()))
+
+# (E) END network leg
+
+# ---------------------------------------------------------------------------------------------------
 
 def run(ctx):
     rng = random.Random(f'C08-{ctx.seed}')
@@ -773,13 +1014,15 @@ def run(ctx):
         b = model.get(cid)
         if a != b:
             dis.append({'case': owner[cid], 'detail': f'{cid}: impl {a[:3]} model {(b or [])[:3]}', 'impl': a[:50], 'model': (b or [])[:50]})
+    net_dis, net_cov = net_leg(ctx, [c for c in cases if c['kind'] == 'pipe'])        # (E) network leg: the one call
+    dis += net_dis
     samples = [c for c in cases if c['kind'] == 'pipe'][:2]
     nontriv = len({json.dumps(c, sort_keys=True, default=str) for c in cases if c['kind'] != 'genre' and (c['kind'] != 'pipe' or len(c['chain']) > 1 or c['fan'])})
     n_oracle_only = sum(1 for c in cases if c['kind'] == 'genre')
     cov = {'evaluations': len(cases) - n_oracle_only, 'distinct_nontrivial': nontriv,
            'rule': 'generator scripts, sink delivery scripts and random pipelines (chains of 1-4 elements from 10 kinds, optional FlowDemux / FIBDemux fan-out/fan-in, the FIBDemux with a route update during the run); non-trivial = distinct case (pipelines: more than one element or a fan-out); oracle-only cases with 2-3 packet switches alive in one process',
            'samples': samples, 'traces_validated_against_impl': len(impl) - len(dis), 'packets_through_pipelines': npk,
-           'operation_histogram': dict(sorted(hist.items())),
+           'operation_histogram': dict(sorted(hist.items())), 'network_replay': net_cov,
            'oracle_only': {'generators_with_distributions_re-pointed_while_running': n_oracle_only,
                            'rings_schedulers': ring_s['coverage'], 'rings_port': ring_p['coverage']}}
     return {'coverage': cov, 'disagreements': dis, 'oracle_failures': orc}
